@@ -21,6 +21,7 @@ import RV.Lemmas.ClosedLoopStepRo
 import RV.Lemmas.ClosedLoopStepBr
 import RV.Lemmas.ClosedLoopLabels
 import RV.Lemmas.ClosedLoopGate
+import RV.Lemmas.ClosedLoopMono
 import RV.Props.ExecutorThms
 namespace RV.Props.ClosedLoop
 open RV.Arith RV.Traffic RV.RolloutSM RV.ClosedLoop RV.Oracle.ClosedLoop RV.Oracle.Batch RV.Lemmas.ClosedLoop
@@ -240,6 +241,19 @@ theorem exposureBound_cloneSet (R : Int) (e k : IntOrPct) :
       if isStr e = true then decide (100 * (exposure k R - calcBatchReplicas R e) < max R 1)
       else decide (exposure k R ≤ calcBatchReplicas R e) := by
   cases h : isStr e <;> simp [exposureBound, h, RV.BatchCtx.exposureOf, allowed] <;> congr
+
+/-- **C01.5, second half (`loop_monotone`)** — along every history, while the rollout is rolling: a Rollout reconcile never
+    writes the partition, and a BatchRelease reconcile over a CloneSet that carries the BatchRelease's control annotation
+    never lowers the exposure (`expo`: new-revision pods the partition in force allows).  (partial: label set; and a
+    BatchRelease reconcile over a CloneSet that does *not* carry the annotation re-claims it at partition 100 % — that
+    this is not a decrease, because such a CloneSet is still held at 100 %, is observed on the walks but not proved.) -/
+theorem loop_monotone_partial (s0 s s' : CS) (ls : List Label) (w : CWl) (h0 : Init s0) (hr : Reach s0 ls s)
+    (hph : s.ro.phase = .progressing) (hre : s.ro.reason = .inRolling) (hw : s.wl = some w) :
+    (step s .ro = some s' →
+       s'.wl.map (fun w => (w.partition, w.replicas)) = s.wl.map (fun w => (w.partition, w.replicas))) ∧
+    (w.owner = .this → step s .br = some s' → ∃ w', s'.wl = some w' ∧ w'.replicas = w.replicas ∧ expo w ≤ expo w') :=
+  ⟨fun h => stepRo_partition s s' h,
+   fun hown h => stepBr_monotone s s' w (loop_inv_partial s0 s ls h0 hr) hph hre hw hown h⟩
 
 /-- a plan whose entries are all integers or all strings (percents) -/
 def homogeneous (plan : List IntOrPct) : Bool := plan.all isStr || plan.all (fun e => !isStr e)
